@@ -15,3 +15,7 @@ pub mod wr_msgpack;
 pub mod wr_toml;
 pub mod wr_yaml;
 pub mod xtapi;
+
+/// Counting allocator (C05 measures peak live heap with it).
+#[global_allocator]
+static GLOBAL: checks::c05::alloc_count::Counting = checks::c05::alloc_count::Counting;
